@@ -160,6 +160,19 @@ def run(ctx):
     ctx.check(allok('ret'), 'R1', at, f.qualname, 'returns-last-document',
               'concat returns the document imported from the full text together with the index list')
     ctx.check(allok('sep'), 'R1', f.loc, f.qualname, 'separator-default', 'separator=None means a newline')
+    # a path that returns without entering the fragment loop (a shortcut for few fragments) must return pairs as well
+    for sp in symex.func_sym_paths(f):
+        if sp.end != 'return' or any(e.kind == 'iter' and e.node is lp for e in sp.events):
+            continue
+        v = sp.value
+        skipped = any(e.kind == 'skip' and e.node is lp for e in sp.events)
+        ok_short = isinstance(v, ast.Tuple) and len(v.elts) == 2 and (src(v.elts[1]) in ('[]', 'indexes') or isinstance(v.elts[1], (ast.List, ast.ListComp)))
+        if skipped and ok_short:
+            continue
+        ctx.check(ok_short, 'R1', f'{f.module.relpath}:{sp.path.end_node.lineno if sp.path.end_node else L}', f.qualname, 'shortcut-returns-pairs',
+                  'a path of concat that does not run the fragment loop still returns (document, list of pairs)',
+                  f'a path of concat returns `{src(v)[:80] if v is not None else None}` without running the fragment loop: not (document, '
+                  f'pairs) - for that input there is no pair per fragment')
     pub = ctx.prog.func(f'{N.PUBLIC}.concat')
     pr = symex.returns(pub)
     okp = len(pr) == 1 and F.same(ctx, pub, pr[0][1], f'generic.Generic.concat(contents={pub.params[0]}, separator=separator)')
